@@ -264,8 +264,11 @@ def compare_state(drv: Driver, st, tally):
                 out.append(Mismatch("C13", "collateral_flag_state", f"supply[{t}].collateral code {p['sc'][t]} spec {st['sc'][t]}"))
         tally("C10/borrow_amount")
         cb = p["bb"].get(t)
-        if (cb is None) != (bb == 0):
-            out.append(Mismatch("C10", "borrow_presence", f"debt[{t}] code {'absent' if cb is None else cb} spec base {bb}"))
+        # an entry of scaled amount 0 is the spec's "empty debt entry" (Aave.tla, st.bz): left by a borrow of nothing, never by a repayment
+        spec_entry = bb != 0 or t in st.get("bz", ())
+        if (cb is None) == spec_entry:
+            out.append(Mismatch("C10", "borrow_presence", f"debt[{t}] code {'absent' if cb is None else cb} spec base {bb}"
+                                                          f"{' (empty entry)' if spec_entry and bb == 0 else ''}"))
         elif cb is not None and not close(cb * bi, bb * bi, REL, ABS18):
             out.append(Mismatch("C10", "borrow_amount", f"debt[{t}] amount code {float(cb * bi)} spec {float(bb * bi)}"))
     return out
@@ -394,7 +397,8 @@ def st_json(uni, proj, row):
     return {"w": {t: q_json(proj["w"][t]) for t in uni.tokens},
             "sb": {t: q_json(proj["sb"].get(t, z)) for t in uni.tokens},
             "sc": {t: bool(proj["sc"].get(t, False)) for t in uni.tokens},
-            "bb": {t: q_json(proj["bb"].get(t, z)) for t in uni.tokens}, "row": row, "k": 0}
+            "bb": {t: q_json(proj["bb"].get(t, z)) for t in uni.tokens},
+            "bz": sorted(t for t, v in proj["bb"].items() if v == 0), "row": row, "k": 0}
 
 
 def helper_probes(drv: Driver, step_no):
